@@ -11,18 +11,20 @@ Codes == IF AllCodes THEN 0..255 ELSE (0..17) \cup {127, 128, 254, 255}
 Types4 == IF AllCodes THEN 0..255 ELSE (0..20) \cup {40, 42, 43, 128, 253, 255}
 Types6 == IF AllCodes THEN 0..255 ELSE (0..6) \cup (125..162) \cup {200, 201, 255}
 
-Icmp4Cases == UNION {{[kind |-> "icmp4", bytes |-> <<tc[1], tc[2], 18, 52>> \o P(n, tc[1] + tc[2])] : n \in (IF tc[1] \in {13, 14} /\ tc[2] = 0 THEN {4, 15, 16, 17} ELSE {4, 9})}
-                     : tc \in Types4 \X Codes}
-Icmp6Cases == UNION {{[kind |-> "icmp6", bytes |-> <<tc[1], tc[2], 18, 52>> \o P(n, tc[1] + 2 * tc[2])]
-                      : n \in (LET k == Icmp6Kind(tc[1], tc[2]) IN IF k = "Unknown" THEN {4, 12} ELSE {4, 4 + NdFixed(k), 4 + NdFixed(k) + 8} \cup (IF NdFixed(k) > 0 THEN {3 + NdFixed(k)} ELSE {}))}
-                     : tc \in Types6 \X Codes}
+\* the input space is split by a seed (message family x type / first option token) so that TLC expands the seeds in parallel
+Icmp4Of(t) == UNION {{[kind |-> "icmp4", bytes |-> <<t, c, 18, 52>> \o P(n, t + c)] : n \in (IF t \in {13, 14} /\ c = 0 THEN {4, 15, 16, 17} ELSE {4, 9})}
+                     : c \in Codes}
+Icmp6Of(t) == UNION {{[kind |-> "icmp6", bytes |-> <<t, c, 18, 52>> \o P(n, t + 2 * c)]
+                      : n \in (LET k == Icmp6Kind(t, c) IN IF k = "Unknown" THEN {4, 12} ELSE {4, 4 + NdFixed(k), 4 + NdFixed(k) + 8} \cup (IF NdFixed(k) > 0 THEN {3 + NdFixed(k)} ELSE {}))}
+                     : c \in Codes}
 
 NdTokens == { <<1, 1>> \o P(6, 1), <<2, 2>> \o P(14, 2), <<3, 4>> \o P(30, 3), <<4, 1>> \o P(6, 4), <<4, 3>> \o P(22, 4), <<5, 1>> \o P(6, 5), <<6, 1>> \o P(6, 6),
               <<1, 0>> \o P(6, 1), <<5, 2>> \o P(14, 5), <<3, 1>> \o P(6, 3), <<3, 5>> \o P(38, 3), <<200, 32>> \o P(6, 9), <<9, 255>> }
 RECURSIVE Cat(_)
 Cat(ts) == IF ts = <<>> THEN <<>> ELSE Head(ts) \o Cat(Tail(ts))
-NdAreas == UNION {{SubSeq(Cat(t), 1, c) : c \in 0..Len(Cat(t))} : t \in UNION {[1..n -> NdTokens] : n \in 0..MaxOpts}}
-NdCases == {[kind |-> "ndp", bytes |-> a] : a \in NdAreas}
+\* all truncations of all token sequences that start with token `first`
+NdAreasOf(first) == UNION {{SubSeq(first \o Cat(t), 1, c) : c \in 0..Len(first \o Cat(t))} : t \in UNION {[1..n -> NdTokens] : n \in 0..(MaxOpts - 1)}}
+NdOf(first) == {[kind |-> "ndp", bytes |-> a] : a \in NdAreasOf(first)}
 \* complete neighbour discovery messages: header + fixed part + option area
 NdMsgCases == {[kind |-> "icmp6", bytes |-> <<ta[1], 0, 18, 52>> \o P(4 + NdFixed(Icmp6Kind(ta[1], 0)), ta[1]) \o ta[2]] : ta \in (133..137) \X
                  {<<>>, <<1, 1>> \o P(6, 1), <<1, 1>> \o P(6, 1) \o <<5, 1>> \o P(6, 5), <<3, 4>> \o P(30, 3), <<5, 0, 0, 0>>, <<4, 32, 1>>, <<3, 4>> \o P(20, 3)}}
@@ -31,12 +33,15 @@ IgmpCases == {[kind |-> "igmp", bytes |-> <<tn[1]>> \o P(tn[2] - 1, tn[1])] : tn
 GroupRecCases == {[kind |-> "grouprec", bytes |-> <<q[1], q[2]>> \o <<0, q[3]>> \o P(q[4], q[1])] : q \in {1, 4, 6, 9} \X {0, 1} \X {0, 2} \X {0, 3, 4, 12, 20}}
 ArpCases == {[kind |-> "arp", bytes |-> <<0, q[1], q[2] \div 256, q[2] % 256, q[3], q[4], 0, 2>> \o P(2 * q[3] + 2 * q[4], 7)] : q \in {1, 6} \X {2048, 34525} \X {6, 8} \X {4, 16}}
 
-Cases == Icmp4Cases \cup Icmp6Cases \cup NdCases \cup NdMsgCases \cup IgmpCases \cup GroupRecCases \cup ArpCases
+Seeds == {<<"icmp4", t>> : t \in Types4} \cup {<<"icmp6", t>> : t \in Types6} \cup {<<"ndp", tok>> : tok \in NdTokens} \cup {<<"rest", 0>>}
+CasesOf(sd) == CASE sd[1] = "icmp4" -> Icmp4Of(sd[2]) [] sd[1] = "icmp6" -> Icmp6Of(sd[2]) [] sd[1] = "ndp" -> NdOf(sd[2])
+                 [] OTHER -> NdMsgCases \cup IgmpCases \cup GroupRecCases \cup ArpCases \cup {[kind |-> "ndp", bytes |-> <<>>]}
+None == [kind |-> "none", bytes |-> <<>>]
 
-VARIABLE x
-Init == x \in Cases
-Next == FALSE /\ UNCHANGED x
-Spec == Init /\ [][Next]_x
+VARIABLES seed, x
+Init == seed \in Seeds /\ x = None
+Next == x = None /\ x' \in CasesOf(seed) /\ UNCHANGED seed
+Spec == Init /\ [][Next]_<<seed, x>>
 
 \* every (type, code) has exactly one kind; unassigned pairs fall back to Unknown; normalisation keeps type, code, checksum
 UnknownFallback ==
@@ -47,5 +52,5 @@ RECURSIVE Walk(_, _, _)
 Walk(it, used, fuel) == IF fuel = 0 THEN -1 ELSE LET r == NdNext(it) IN
                         IF r[1][1] = "item" THEN Walk(r[2], used + Len(r[1][3]), fuel - 1) ELSE used
 OptionTiling == x.kind = "ndp" => LET u == Walk([rest |-> x.bytes, dead |-> FALSE], 0, 64) IN u >= 0 /\ u <= Len(x.bytes) /\ u % 8 = 0
-Emit == PrintT(<<"CTL", ToJson(x)>>)
+Emit == x = None \/ PrintT(<<"CTL", ToJson(x)>>)
 ====
